@@ -389,12 +389,21 @@ def check_against_ref(h, ref: Ref, site, fails, handles=None):
                 w = _as_tonode(n)
                 listing2 = h.outgoing_links(w) if out else h.incoming_links(w)
                 flat2 = [((p.node.idx, p.offset), (q.node.idx, q.offset)) for p, qs in listing2 for q in qs]
-                cnt3 = h.num_outgoing(w) if out else h.num_incoming(w)
-                cnt4 = h.num_outgoing(n) if out else h.num_incoming(n)
+                # (`num_incoming` is declared for `Node` only: not asked through the wrapper)
+                cnt3 = h.num_outgoing(w) if out else None
+                cnt4 = h.num_outgoing(n) if out else None
+                same = (
+                    h[w] is h[n] and [c.idx for c in h.children(w)] == ch and h.num_ports(w, d) == cnt
+                    and (h.num_out_ports(w) if out else h.num_in_ports(w)) == cnt2
+                    and [m.idx for m in h.outgoing_order_links(w)] == [m.idx for m in h.outgoing_order_links(n)]
+                    and [m.idx for m in h.incoming_order_links(w)] == [m.idx for m in h.incoming_order_links(n)]
+                )
             except Exception as e:  # noqa: BLE001
                 return F("link-listing", f"node {idx} asked through a ToNode wrapper: {type(e).__name__}")
             if _ms(flat2) != _ms(exp) or cnt3 != cnt4:
                 return F("link-listing", f"node {idx} {'out' if out else 'in'} asked through a ToNode wrapper: got {flat2} expected {exp}")
+            if not same:
+                return F("node-queries", f"node {idx}: lookup / children / port counts / order-link listings differ when asked through a ToNode wrapper")
         oo = [m.idx for m in h.outgoing_order_links(n)]
         if _ms(oo) != _ms([d[0] for s, d in ref.links if s == (idx, -1)]):
             return F("order-link-listing", f"node {idx} out: {oo}")
